@@ -38,6 +38,8 @@ def run(ctx):
             l, {k: v for k, v in ev.items() if k not in ("post", "views")}, tid,
             [[(c["o"], c["s"], c["a"]) for c in L] for L in ev["post"]])
         ctx.report(clause, detail, {"meta": meta[tid], "trace": traces[tid], "event": l})
+    ctx.require_ops("Trace_Curves", ["init", "append_curve", "insert_curve", "delete_ix", "delete_mn", "update_mn", "update_ix", "replace_item",
+                                     "setitem_arr", "setitem_item", "set_data"])
     ctx.sample({"model_edge": edges[len(edges) // 2]})
     ctx.sample({"random_history": meta[-1]})
     ctx.assumptions += [
